@@ -16,6 +16,7 @@ from fractions import Fraction
 import numpy as np
 
 from .. import common as C
+from .. import fasteval
 
 CAP_ALL = 800          # levels with at most this many voxels are enumerated exhaustively
 HEADER = ("From Coq Require Import ZArith QArith List Bool. Import ListNotations.\n"
@@ -58,8 +59,14 @@ def has_open(spec):
     return any(b["kind"] == "open" for b in spec["bases"])
 
 
+def z(x):
+    """Plain Z literal (the cases header opens Z_scope; `(n)%Z` costs twice the parsing time)."""
+    x = int(x)
+    return str(x) if x >= 0 else "(%d)" % x
+
+
 def zl(v):
-    return C.clist([C.cz(int(x)) for x in v])
+    return "[" + ";".join(z(x) for x in v) + "]"
 
 
 def zll(v):
@@ -91,7 +98,7 @@ def spec_coq(spec):
 
 
 def oz(x):
-    return "None" if x is None else "(Some %s)" % C.cz(int(x))
+    return "None" if x is None else "(Some %s)" % z(x)
 
 
 # --------------------------------------------------------------------------------------------------
@@ -116,8 +123,8 @@ def observed_axes(ga):
 
 
 def axis_coq(a):
-    return "(mkAxis %s %s %s %s %s %s %s)" % (C.cz(a["shape"]), oz(a["split"]), oz(a["psplit"]), C.cbool(a["open"]),
-                                              oz(a["pad"]), oz(a["ppad"]), C.cz(a["shift"]))
+    return "(mkAxis %s %s %s %s %s %s %s)" % (z(a["shape"]), oz(a["split"]), oz(a["psplit"]), C.cbool(a["open"]),
+                                              oz(a["pad"]), oz(a["ppad"]), z(a["shift"]))
 
 
 def probes_for(shape, rng, n_out):
@@ -169,8 +176,8 @@ def windows_for(spec, shapes):
     out = []
     for shape in shapes:
         w = [int(x) for x in rng.integers(1, 5, size=len(shape))]
-        if int(np.prod(w)) * int(np.prod(shape)) > 40000:
-            w = [min(x, 2) for x in w]
+        while int(np.prod(w)) * min(int(np.prod(shape)), CAP_ALL) * len(shape) > 3000 and max(w) > 1:
+            w[int(np.argmax(w))] -= 1
         out.append(w)
     return out
 
@@ -206,15 +213,23 @@ def observe(spec):
             lv["window"] = w
             lv["neighborhood"] = per_probe(ga.neighborhood(Pp, tuple(w)), nd, n).tolist()
             co = np.asarray(ga.index2coord(Pp), dtype=np.float64)
-            lv["coord"] = co[:, :n].T.tolist()
             lv["coord_rt"] = np.asarray(ga.coord2index(co)).astype(np.int64)[:, :n].T.tolist()
+            # coordinate VALUES (long dyadic literals) are compared on a diagonal probe set that
+            # contains every per-axis index from -shape-2 to shape+2 (the maps are axis-separable;
+            # the integer round trip above runs on all probes)
+            smax = max(shape)
+            D = np.stack([np.clip(np.arange(-smax - 2, smax + 3), -s - 2, s + 2) for s in shape]).astype(np.int64)
+            nD = D.shape[1]
+            cod = np.asarray(ga.index2coord(pad_cols(D)), dtype=np.float64)
+            lv["dprobes"] = D.T.tolist()
+            lv["coord"] = cod[:, :nD].T.tolist()
             # coord2index on dyadic coordinates away from rounding ties: cell centres shifted by
             # at most a quarter cell, snapped to odd multiples of 2^-21 (never a half-integer index
             # in exact arithmetic unless the float computation is exact, too)
             ext = np.array([a["shape"] + 2 * a["shift"] for a in lv["axes"]], dtype=np.float64)
-            cq = (np.floor((co + (rng.integers(-1, 2, size=co.shape) * 0.25) / ext[:, None]) * 2.0 ** 20) + 0.5) / 2.0 ** 20
-            lv["coordq"] = cq[:, :n].T.tolist()
-            lv["coordq_idx"] = np.asarray(ga.coord2index(cq)).astype(np.int64)[:, :n].T.tolist()
+            cq = (np.floor((cod + (rng.integers(-1, 2, size=cod.shape) * 0.25) / ext[:, None]) * 2.0 ** 20) + 0.5) / 2.0 ** 20
+            lv["coordq"] = cq[:, :nD].T.tolist()
+            lv["coordq_idx"] = np.asarray(ga.coord2index(cq)).astype(np.int64)[:, :nD].T.tolist()
         lv["volume"] = float(np.asarray(ga.index2volume(P[:, :1])).ravel()[0])
         # flat views
         lv["flat"] = {}
@@ -269,7 +284,7 @@ def checks_for(obs):
             add("parent", l, "chk_parent %s %s %s %s" % (g, L, P, zll(lv["parent"])))
         if not hp:
             add("neighborhood", l, "chk_neighborhood %s %s %s %s %s" % (g, L, zl(lv["window"]), P, zlll(lv["neighborhood"])))
-            add("coord", l, "chk_coord %s %s (1 # 1000000000000)%%Q %s %s %s" % (g, L, P, qll(lv["coord"]), zll(lv["coord_rt"])))
+            add("coord", l, "chk_coord %s %s (1 # 1000000000000)%%Q %s %s %s %s" % (g, L, zll(lv["dprobes"]), qll(lv["coord"]), P, zll(lv["coord_rt"])))
             add("coord2index", l, "chk_coord2index %s %s %s %s" % (g, L, qll(lv["coordq"]), zll(lv["coordq_idx"])))
             add("volume", l, "chk_volume %s %s (1 # 1000000000000000)%%Q %s" % (g, L, C.cq(lv["volume"])))
         for ordering, fo in lv["flat"].items():
@@ -643,7 +658,7 @@ class C31(C.Check):
             n_idx += sum(len(lv["probes"]) for lv in o["levels"])
             k = "+".join(b["kind"] for b in spec["bases"])
             dist[k] = dist.get(k, 0) + 1
-        bad = C.eval_cases(self.prop, "corr", HEADER, checks, shard=120, jobs=5)
+        bad = fasteval.eval_bools(self.prop, "corr", HEADER, checks, jobs=5)
         hints = []
         for i in bad[:6]:
             res.add_broken("correspondence", "grid.py vs coq/C31/Model.v: %s" % meta[i]["what"], meta[i])
